@@ -716,25 +716,26 @@ mod expression_parser {
     }
     // The comments are printed in front of the first token of the expression. Attach them to the
     // sub-expression that owns that token, which is where parsing the printed text puts them.
-    let common = leftmost_expression_common_mut(&mut expr);
-    common.associated_comments =
-      super::utils::mod_associated_comments_with_additional_preceding_comments(
-        parser,
-        common.associated_comments,
-        additional_preceding_comments,
-      );
+    let slot = leftmost_expression_comments_mut(&mut expr);
+    *slot = super::utils::mod_associated_comments_with_additional_preceding_comments(
+      parser,
+      *slot,
+      additional_preceding_comments,
+    );
     expr
   }
 
-  pub(super) fn leftmost_expression_common_mut(
-    e: &mut expr::E<()>,
-  ) -> &mut expr::ExpressionCommon<()> {
+  /// The comment slot printed in front of the first token of `e`: for a tuple that is the start
+  /// comments of its parenthesised list (printed before `(`), otherwise the comments of the
+  /// sub-expression that owns the first token.
+  pub(super) fn leftmost_expression_comments_mut(e: &mut expr::E<()>) -> &mut CommentReference {
     match e {
-      expr::E::FieldAccess(e) => leftmost_expression_common_mut(&mut e.object),
-      expr::E::MethodAccess(e) => leftmost_expression_common_mut(&mut e.object),
-      expr::E::Call(e) => leftmost_expression_common_mut(&mut e.callee),
-      expr::E::Binary(e) => leftmost_expression_common_mut(&mut e.e1),
-      other => other.common_mut(),
+      expr::E::FieldAccess(e) => leftmost_expression_comments_mut(&mut e.object),
+      expr::E::MethodAccess(e) => leftmost_expression_comments_mut(&mut e.object),
+      expr::E::Call(e) => leftmost_expression_comments_mut(&mut e.callee),
+      expr::E::Binary(e) => leftmost_expression_comments_mut(&mut e.e1),
+      expr::E::Tuple(_, list) => &mut list.start_associated_comments,
+      other => &mut other.common_mut().associated_comments,
     }
   }
 
@@ -2298,12 +2299,12 @@ mod utils {
     if start_comments.is_empty() && end_comments.is_empty() {
       return expression;
     }
-    let common = super::expression_parser::leftmost_expression_common_mut(&mut expression);
-    start_comments.extend(parser.comments_store.get(common.associated_comments).iter().copied());
+    let slot = super::expression_parser::leftmost_expression_comments_mut(&mut expression);
+    start_comments.extend(parser.comments_store.get(*slot).iter().copied());
     start_comments.append(&mut end_comments);
-    match parser.comments_store.get_mut(common.associated_comments) {
+    match parser.comments_store.get_mut(*slot) {
       CommentsNode::NoComment => {
-        common.associated_comments = parser.comments_store.create_comment_reference(start_comments);
+        *slot = parser.comments_store.create_comment_reference(start_comments);
       }
       CommentsNode::Comments(existing_comments) => *existing_comments = start_comments,
     }
